@@ -3,23 +3,104 @@
    histories without hard write failures (Calm.v).  The transfer from hand-overs to writes (C13Transfer.v) and the
    FIFO discipline of the queue (FifoProofs.v) hold for arbitrary histories. *)
 From PahoV Require Import Base.Prelude Codec.Mid Codec.MidProofs Session2.Model Session2.Check Session2.Statements
-  Session2.Bridge Session2.Calm Session2.LLemmas Session2.LInv Session2.LC13 Session2.FifoProofs Session2.C13Transfer.
+  Session2.Bridge Session2.Fail Session2.LLemmas Session2.LInv Session2.Inv Session2.Full Session2.LC13 Session2.FifoProofs Session2.C13Transfer.
 From PahoV Require Session2.Legacy.
 
-Theorem c13_handed_calm_proved : C13_handed_calm_stmt.
+(* ================================================================ hard write failures *)
+Section Order3.
+Variable c : cfg.
+Hypothesis Hcfg : cfg_ok c = true.
+
+Lemma k13_tx_ok k t : k3_ok (k13_tx k t) = true -> k3_ok k = true.
 Proof.
-  intros c ops Hcfg Hc Hn. unfold c13_handed_ok, c13_gen_ok, optrace.
-  destruct (lift_calm c (LInv.Inv c) (LInv.inv_step c Hcfg) k13 (fun k evs => fold_left hev evs k) (LC13.R)
-              (fun s o k => LC13.R_step c Hcfg s k o) ops (init c) k13_init (LInv.inv_init c) eq_refl Hn Hc) as (s' & H & _).
+  unfold k13_tx. destruct (zin t (k3_seen k)); [exact (fun x => x)|].
+  destruct (t <? k3_bound k); cbn [k3_ok]; intros H; apply andb_true_iff in H as [H _]; exact H.
+Qed.
+Lemma k13_tx_next k t : k3_next (k13_tx k t) = k3_next k.
+Proof. unfold k13_tx. destruct (zin t (k3_seen k)); [reflexivity|]. destruct (t <? k3_bound k); reflexivity. Qed.
+
+Lemma hev_ok k e : k3_ok (hev k e) = true -> k3_ok k = true.
+Proof.
+  destruct e; cbn [hev k13_ev handed_sel k3_ok]; try exact (fun x => x).
+  unfold k13_pkt. destruct (ptag p); [apply k13_tx_ok | exact (fun x => x)].
+Qed.
+Lemma hev_fold_ok : forall evs k, k3_ok (fold_left hev evs k) = true -> k3_ok k = true.
+Proof. induction evs as [|e evs IH]; intros k H; [exact H|]. cbn [fold_left] in H. apply (hev_ok k e). exact (IH _ H). Qed.
+
+(* only publish() moves the tag counter of the checker *)
+Definition noret (e : event) : bool := match e with Ret _ _ _ _ => false | _ => true end.
+Lemma hev_next k e : noret e = true -> k3_next (hev k e) = k3_next k.
+Proof.
+  destruct e; cbn [noret hev k13_ev handed_sel k3_next]; try discriminate; try reflexivity.
+  intros _. unfold k13_pkt. destruct (ptag p); [apply k13_tx_next | reflexivity].
+Qed.
+Lemma hev_fold_next : forall evs k, forallb noret evs = true -> k3_next (fold_left hev evs k) = k3_next k.
+Proof.
+  induction evs as [|e evs IH]; intros k H; [reflexivity|]. cbn [forallb] in H. apply andb_true_iff in H as [He H].
+  cbn [fold_left]. rewrite (IH _ H). apply hev_next. exact He.
+Qed.
+
+Lemma R13_sf s b k : LC13.R s k -> LC13.R (set_failing s b) k.
+Proof. intros H. exact (LC13.R_ext s (set_failing s b) k eq_refl eq_refl eq_refl H). Qed.
+
+Lemma o3_pub0 s k : Inv c s -> dead s -> LC13.R s k ->
+  LC13.R (fst (do_publish c s 0)) (fold_left hev (snd (do_publish c s 0)) k).
+Proof.
+  intros I Hd (Hok & Hnx & _). rewrite (publish0_dead c s Hd). cbn [fst snd].
+  apply R_closed.
+  - cbn [fold_left hev k13_ev handed_sel k13_pkt ptag Z.eqb k3_ok]. exact Hok.
+  - cbn [fold_left hev k13_ev handed_sel k13_pkt ptag Z.eqb k3_next]. rewrite legacy_publish_ntag0. reflexivity.
+  - reflexivity.
+Qed.
+
+Lemma o3_pubw s q k : Inv c s -> dead s -> pub_wrote c s q = true -> conf_op c s (OPublish q) = true -> LC13.R s k ->
+  LC13.R (fst (do_publish c s q)) (fold_left hev (snd (do_publish c s q)) k).
+Proof.
+  intros I Hd Hw Hconf HR.
+  pose proof (LC13.R_step c Hcfg s k (Legacy.OPublish q) I Hconf HR) as HL. cbn [Legacy.step] in HL.
+  destruct (legacy_publish_dead_wrote c s q Hd Hw) as (sb & E & _ & En & _). rewrite E in HL. cbn [fst snd] in HL.
+  destruct (legacy_publish_offline_wrote c (lost s) q eq_refl Hw) as (so & Eo & _ & Eno & _ & Hso).
+  rewrite (publish_dead_wrote c s q Hd Hw), Eo. cbn [fst snd].
+  destruct HL as (Hok & Hnx & _).
+  apply R_closed.
+  - exact Hok.
+  - cbn [ntag with_q]. rewrite Eno. cbn [ntag lost with_sock]. rewrite <- En. exact Hnx.
+  - cbn [sock with_q]. exact Hso.
+Qed.
+
+Lemma o3_connack s r k : Inv c s -> dead s -> cack s = false -> LC13.R s k ->
+  LC13.R (fst (do_rx c s (IConnack 0) r)) (fold_left hev (snd (do_rx c s (IConnack 0) r)) k).
+Proof.
+  intros I Hd Hck HR. pose proof Hd as (Hs & _ & _).
+  assert (Hconf : Legacy.conf_op c s (Legacy.ORx (IConnack 0) r) = true) by (cbn [Legacy.conf_op]; rewrite Hs, Hck; reflexivity).
+  pose proof (LC13.R_step c Hcfg s k (Legacy.ORx (IConnack 0) r) I Hconf HR) as HL. cbn [Legacy.step] in HL.
+  destruct (connack_dead_cases c s r Hd) as [E|[(sd & E & Hsd & _ & _ & En & _)|(sd & l1 & m & l2 & x & rest & E & Hsd & _ & _ & _ & En & _ & EL & _)]].
+  - rewrite E. exact HL.
+  - rewrite E. cbn [fst snd]. destruct HR as (Hok & Hnx & _). apply R_closed; [exact Hok | rewrite En; exact Hnx | exact Hsd].
+  - rewrite E. cbn [fst snd]. rewrite EL in HL. destruct HL as (HokL & _ & _). destruct HR as (_ & Hnx & _).
+    change (Inp (IConnack 0) :: Handed (conn s) (q_pkt x) :: rest) with ([Inp (IConnack 0); Handed (conn s) (q_pkt x)] ++ rest) in HokL.
+    rewrite fold_left_app in HokL. apply hev_fold_ok in HokL.
+    apply R_closed; [| | exact Hsd].
+    + exact HokL.
+    + rewrite En, <- Hnx. apply (hev_fold_next [Inp (IConnack 0); Handed (conn s) (q_pkt x); SockLost]). reflexivity.
+Qed.
+
+End Order3.
+
+(* EVERY conforming history, hard write failures included *)
+Theorem c13_handed_proved : C13_handed_stmt.
+Proof.
+  intros c ops Hcfg Hc. unfold c13_handed_ok, c13_gen_ok, optrace.
+  destruct (lift_flat c Hcfg k13 hev LC13.R (fun s o k => LC13.R_step c Hcfg s k o) R13_sf
+              (o3_pub0 c) (o3_pubw c Hcfg) (o3_connack c Hcfg) ops (init c) k13_init (inv3_init c) Hc) as (s' & H & _).
   - apply R_closed; reflexivity.
   - exact H.
 Qed.
 
-(* the writes: the queue is a FIFO, so they inherit the order of the hand-overs *)
-Theorem c13_tx_calm_proved : C13_tx_calm_stmt.
+Theorem c13_tx_proved : C13_tx_stmt.
 Proof.
-  intros c ops Hcfg Hc Hn. apply c13_transfer_proved; [apply fifo_proved | apply c13_handed_calm_proved; assumption].
+  intros c ops Hcfg Hc. apply c13_transfer_proved; [apply fifo_proved | apply c13_handed_proved; assumption].
 Qed.
 
-Print Assumptions c13_handed_calm_proved.
-Print Assumptions c13_tx_calm_proved.
+Print Assumptions c13_handed_proved.
+Print Assumptions c13_tx_proved.
